@@ -651,6 +651,13 @@ def fixed_trees():
         out.append(ex.ExprCompose([(I(v & 0xffffffffffffffff, 64), 0, 64), (ex.ExprSlice(I(v, 128), 64, 128), 64, 128)]))
     out.append(ex.ExprMem(p, 128))
     out.append(ex.ExprCond(I(1 << 64, 128), a, b))
+    # identifiers created as registers / as terminal symbols (the lifter's are): every law again on trees over them
+    ra, rb = Id('eax', 32, is_reg=True), Id('ebx', 32, is_reg=True)
+    ta = Id('init_eax', 32, is_term=True)
+    rds = Id('ds', 16, is_reg=True)
+    out += [ra, ra + rb, ex.ExprSlice(ra, 0, 16), ex.ExprMem(ra + I(4, 32), 32, rds), ex.ExprCond(rb, ra, ta), ex.ExprOp('^', ta, ra),
+            ex.ExprCompose([(ex.ExprSlice(ra, 0, 8), 0, 8), (ex.ExprSlice(ra, 8, 16), 8, 16), (ex.ExprSlice(rb, 0, 16), 16, 32)]),
+            ex.ExprAff(ra, ex.ExprOp('-', rb, ta)), ex.ExprMem(ta, 8)]
     return out
 
 
